@@ -83,6 +83,7 @@ func literalRoundTrip(k ref.FKind, lit string) (bad string, printed string) {
 	}
 	got, ok2, why2 := ref.ReadLiteral(k, printed)
 	_ = why
+	want = x87Value(k, want)
 	if !ok2 {
 		return fmt.Sprintf("%s literal %q is printed as %q, which LLVM's rules do not accept for the type: %s", k.Name, lit, printed, why2), printed
 	}
@@ -120,10 +121,21 @@ func fp80Canonical(p ref.Pat) bool {
 	intBit := p.Lo>>63 == 1
 	switch {
 	case exp == 0:
-		return !intBit
+		return true // denormals, and pseudo-denormals: see x87Value
 	default:
 		return intBit
 	}
+}
+
+// x87Value: a pseudo-denormal (exponent field 0 with the integer bit set) is the x87 encoding of the
+// number with exponent field 1 and the same significand; LLVM reads it as that number and prints the
+// normal encoding (`0xK00008000000000000000` is printed `0xK00018000000000000000`). The value is what
+// has to be kept, so the expected pattern of such a literal is the normal encoding.
+func x87Value(k ref.FKind, p ref.Pat) ref.Pat {
+	if k.Name == "x86_fp80" && p.Hi&0x7FFF == 0 && p.Lo>>63 == 1 {
+		p.Hi |= 1
+	}
+	return p
 }
 
 // ppcCanonical: the pair (hi, lo) of doubles is the canonical double-double of their sum:
